@@ -521,7 +521,7 @@ func c17ReentWitnesses() []c17Case {
 func c17ReentSuite(r *Result, rng *rand.Rand, tier string) {
 	loadBuiltins()
 	var cases []c17Case
-	nrand := 2500
+	nrand := 6000
 	switch tier {
 	case "thorough":
 		nrand = 120000
